@@ -28,7 +28,7 @@ from pyvc import loader, ops, verify
 from pyvc.contracts import FnContract, Registry
 from pyvc.exctypes import Universe
 from pyvc.flow import ground_obligation
-from pyvc.values import NONE, VBool, VExt, VFunc, VInt, VNoneT, VRef, VStr, ext_sort
+from pyvc.values import NONE, VBool, VBytes, VExt, VFunc, VInt, VNoneT, VRef, VStr, ext_sort
 from pyvc.verify import p_ext
 
 from contracts.c03_exec import class_schema, fld, fun
@@ -133,7 +133,7 @@ class AccessExecutor(C14Executor):
 def _m_bytesio(ex, st, args, kwargs, node):
     if kwargs or len(args) > 1:
         raise ops.Unsupported(f"{ex.loc(node)} io.BytesIO with keyword / several arguments")
-    if not args or isinstance(args[0], VNoneT):
+    if not args or isinstance(args[0], VNoneT) or (isinstance(args[0], VBytes) and not args[0].items):
         content = VExt(PAYLOAD, EMPTY)
     elif isinstance(args[0], VExt) and args[0].sort == PAYLOAD:
         content = args[0]
